@@ -101,7 +101,15 @@ def generate_c(unit, workdir, mutate=None):
         if mutate and mutate[0] == "orig:" + src["name"]:
             src2 = dict(src)
             src2["_mutate_orig"] = mutate
-        ex = _extract(src2, unit["name"])
+        try:
+            ex = _extract(src2, unit["name"])
+        except X.ExtractionError:
+            # a unit that shares a source list with others names the bodies its entry really uses ("needs"); a body it does not
+            # use and that no longer extracts (e.g. it was rewritten) is replaced by an unreachable stub instead of failing the unit
+            if "needs" in unit and src["name"] not in unit["needs"]:
+                ex = dict(name=src["name"], text="{ __CPROVER_assume(0); }", orig_sha="-", emitted_sha="-", fired=[], header="", orig="", file=src["file"], nloops=0)
+            else:
+                raise
         if mutate and mutate[0] == "body:" + src["name"]:
             ex = dict(ex)
             new, n = re.subn(mutate[1], mutate[2], ex["text"], count=mutate[3] if len(mutate) > 3 else 0, flags=re.S)
